@@ -198,7 +198,14 @@ def run(prog: Program, col: Collector, refs: Refs, cat: Catalogue, rule_log: str
                 if not ok:
                     break
             if ok:
-                col.ok(f"{f.fq}::log-einsum at -inf [{backend.split('.')[1]}]", f"{len(subsets)} element-class sets, no NaN, all -inf gives -inf", f.loc())
+                # the float range boundary: operands whose elements are all the most negative finite float contract to a finite value -
+                # the stabilising shift has to reach down to them (a shift clamped at a positive bound leaves exp(x - shift) = 0)
+                res, it = _run(prog, refs, cat, f, [V("str"), num({FMIN}, True)], backend)
+                n_scen += 1
+                ok = _judge(col, f, f"log-einsum at -inf [{backend.split('.')[1]}]", f"einsum(eq, *operands) with every operand element the most negative finite float [{backend}]",
+                            res, it, forbid={NINF}) and ok
+            if ok:
+                col.ok(f"{f.fq}::log-einsum at -inf [{backend.split('.')[1]}]", f"{len(subsets)} element-class sets + 1 at the most negative float, no NaN, all -inf gives -inf", f.loc())
 
     # ------------------------------------------------------------------ R15.9 safe ops never produce NaN
     if rule_safe is None:
